@@ -57,7 +57,7 @@ func genSizes(c *fw.Case) sizes {
 func genBlob(c *fw.Case, sz sizes, limit int) []byte {
 	r := c.Rand("blob.seed")
 	var b []byte
-	nseg := c.Range(0, 7, "blob.segs")
+	nseg := c.Range(1, 7, "blob.segs")
 	for i := 0; i < nseg && len(b) < limit; i++ {
 		var l int
 		switch c.Draw(4, "seg.len.kind") {
@@ -167,16 +167,16 @@ var errInjected = errors.New("injected store failure")
 // simStore is an in-memory WriteStore whose every call is a scheduling point
 // and which can fail / delay chosen calls.
 type simStore struct {
-	mu      sync.Mutex
-	rt      *simrt.RT
-	c       *fw.Case
-	m       map[desync.ChunkID][]byte
-	faults  []storeFault
-	calls   map[string]int
-	Log     []string
-	fired   int
-	name    string
-	latency bool
+	mu        sync.Mutex
+	rt        *simrt.RT
+	c         *fw.Case
+	m         map[desync.ChunkID][]byte
+	faults    []storeFault
+	calls     map[string]int
+	Log       []string
+	fired     int
+	name      string
+	latency   bool
 	delivered int // failures returned to the caller
 }
 
